@@ -408,3 +408,75 @@ def ob_z3_truth(which):
         return f"r={r}"
 
     return explore(body, {"budget_s": 60})
+
+
+# ---- bool_check on expressions with structure --------------------------------------------------------------------
+
+def ob_bool_check_node(which, tier="quick"):
+    """algorithm.bool_check.is_true / is_false on an arbitrary Boolean expression whose shape is decided lazily (SymNode: every operation that
+    can produce a Bool, floating-point and string comparisons as opaque operations, operands possibly the SAME node): True only if the
+    expression holds / fails under every assignment.  The handle of ob_bool_check has no structure, so code that inspects `.op` / `.args`
+    before asking the concrete backend is only visible here."""
+    from vf.engine import symnode as SN
+    from vf.contracts import simp
+
+    def body(c):
+        e = SN.new_node(("bool",), "root_e")
+        c.describers.append(lambda m: {"e": SN.describe(e, m)})
+
+        class Conc:
+            @staticmethod
+            def is_true(x):
+                if c.choose([True, True], "concrete-backend-error") == 1:
+                    raise BackendError("no")
+                return SN.is_true_contract(x)
+
+            @staticmethod
+            def is_false(x):
+                if c.choose([True, True], "concrete-backend-error") == 1:
+                    raise BackendError("no")
+                return SN.is_false_contract(x)
+        NS = type("NS", (), {"backends": type("B", (), {"concrete": Conc})})
+        ns = loader.load("claripy/algorithm/bool_check.py", "claripy.algorithm.bool_check", overrides={"claripy": NS})
+        try:
+            r = ns[which](e)
+        except (PathEnd, Undecided):
+            raise
+        except Exception as ex:  # noqa
+            c.fail(f"bool_check.{which}[node]/raises", f"{type(ex).__name__}: {ex}", kind="raises")
+            return "raised"
+        if not isinstance(r, bool):
+            c.fail(f"bool_check.{which}[node]/type", f"returned {r!r}")
+        elif r:
+            den = e.root().den
+            c.check(f"bool_check.{which}[node]/sound", den if which == "is_true" else z3.Not(den), "returned True although the expression does not hold under every assignment")
+        else:
+            c.check(f"bool_check.{which}[node]/false-is-allowed", True)
+        return f"r={r}"
+
+    t = {"kwargs": {"which": which}}
+    return explore(body, simp._opts(8, tier, budget_s=120, replay=lambda f: replay_bool_check_node(t, f)))
+
+
+def replay_bool_check_node(task, failure):
+    """native: rebuild the described expression with the real claripy, ask the real claripy.is_true / is_false, and let Z3 decide validity"""
+    import claripy
+    import z3 as _z
+    from vf.contracts import simp
+    which = task["kwargs"]["which"]
+    d = failure.get("witness", {}).get("e")
+    if not isinstance(d, dict):
+        return {"reproduced": False, "text": "witness carries no expression"}
+    try:
+        e = simp.build_real(d)
+    except Exception as ex:  # noqa
+        return {"reproduced": False, "text": f"cannot rebuild the expression: {type(ex).__name__}: {ex}"}
+    ans = getattr(claripy, which)(e)
+    if not ans:
+        return {"reproduced": False, "text": f"claripy.{which}({e}) = False"}
+    B = claripy.backends.z3
+    s = _z.Solver(ctx=B._context)
+    ze = B.convert(e)
+    s.add(_z.Not(ze) if which == "is_true" else ze)
+    r = s.check()
+    return {"reproduced": r == _z.sat, "text": f"claripy.{which}({e}) = True; Z3: the expression is {'refuted' if which == 'is_true' else 'satisfied'} by {s.model() if r == _z.sat else 'no assignment'}"}
